@@ -89,6 +89,14 @@ def mk_index(base, idx):
         sp = ("call", ("attr", base[1][1], "split"),
               (base[2][0], ("const", 1)), ())
         return ("index", sp, ("const", 0 if idx[1] == 0 else 1))
+    if base[0] == "call" and base[1][0] == "attr" \
+            and base[1][2] == "rpartition" and len(base[2]) == 1 \
+            and not base[3] and idx in (("const", 0), ("const", 2)):
+        # x.rpartition(s)[0] is x.rsplit(s, 1)[0]; [2] is x.rsplit(s, 1)[1]
+        # wherever s occurs in x (as for partition)
+        sp = ("call", ("attr", base[1][1], "rsplit"),
+              (base[2][0], ("const", 1)), ())
+        return ("index", sp, ("const", 0 if idx[1] == 0 else 1))
     if base[0] == "slice" and base[3] is None and idx[0] == "const" \
             and isinstance(idx[1], int) and idx[1] >= 0 \
             and base[2] is not None and base[2][0] == "const" \
@@ -886,6 +894,25 @@ class Interp:
             return ("attr", base, node.attr)
         if isinstance(node, ast.Tuple):
             return ("tuple", tuple(self.eval(e, env) for e in node.elts))
+        if isinstance(node, ast.List) and any(
+                isinstance(e, ast.Starred) for e in node.elts):
+            # [*a, x, *b] is a + [x] + b (as lists)
+            out, run_ = None, []
+
+            def flush(out):
+                if run_:
+                    seg = ("list", tuple(run_))
+                    del run_[:]
+                    return seg if out is None else mk_add(out, seg)
+                return out
+            for e in node.elts:
+                if isinstance(e, ast.Starred):
+                    out = flush(out)
+                    v = self.eval(e.value, env)
+                    out = v if out is None else mk_add(out, v)
+                else:
+                    run_.append(self.eval(e, env))
+            return flush(out)
         if isinstance(node, ast.List):
             if not node.elts:
                 # an empty display is a fresh mutable object: later appends
@@ -1085,6 +1112,23 @@ class Interp:
         return t
 
     def comprehension(self, node, env, into=None):
+        if isinstance(node, ast.GeneratorExp) and into is None \
+                and len(node.generators) == 1 \
+                and not node.generators[0].is_async \
+                and isinstance(node.generators[0].iter, (ast.Tuple, ast.List)) \
+                and len(node.generators[0].iter.elts) <= 4 \
+                and not any(isinstance(e, ast.Starred)
+                            for e in node.generators[0].iter.elts):
+            # (f(x) for x in (a, b, c)) consumed as a whole (unpacked,
+            # joined, ...): the tuple of the results, in order
+            g = node.generators[0]
+            env2 = dict(env)
+            out = []
+            for e in g.iter.elts:
+                self.assign(g.target, self.eval(e, env2), env2, node)
+                if all(self.truth(c, env2) for c in g.ifs):
+                    out.append(self.eval(node.elt, env2))
+            return ("tuple", tuple(out))
         if isinstance(node, (ast.ListComp, ast.GeneratorExp)) \
                 and len(node.generators) >= 1 \
                 and not any(g.is_async for g in node.generators) \
@@ -1101,9 +1145,12 @@ class Interp:
                 res = into
             first_it = self.eval(node.generators[0].iter, env2)
             twice = self.loop_policy(node) == "twice"
-            exact = len(node.generators) == 1 and (
-                (first_it[0] in ("tuple", "list") and len(first_it[1]) <= 4
-                 and not self.loop_depth) or self.exact_loops)
+            # exact contents are known when every `for` clause runs over a
+            # short literal sequence (fully unrolled); a clause over anything
+            # else makes the result inexact (see gen below)
+            exact = (first_it[0] in ("tuple", "list") and len(first_it[1]) <= 4
+                     and not self.loop_depth) or (
+                         self.exact_loops and len(node.generators) == 1)
             if res[0] == "newlist":
                 if exact and (into is None or self.path.builders.get(
                         res[1]) is not None):
@@ -1141,6 +1188,8 @@ class Interp:
                     self.path.effects.append(("loop-enter", node.lineno, it,
                                               node))
                     rep = True
+                    if res[0] == "newlist" and not self.exact_loops:
+                        self.path.builders[res[1]] = None
                 self.loop_depth += 1
                 try:
                     for el in elems:
@@ -1281,6 +1330,46 @@ class Interp:
                 self.fresh_counter += 1
                 res = ("newlist", self.fresh_counter)
                 return self.comprehension(node.args[0], env, into=res)
+            if isinstance(f, ast.Name) and f.id in ("any", "all") \
+                    and f.id not in env \
+                    and len(node.args[0].generators) == 1 \
+                    and not node.args[0].generators[0].is_async:
+                # any(P(x) for x in xs if c) is the search loop
+                #   r = False
+                #   for x in xs:
+                #       if c and P(x): r = True; break
+                # (all: r = True / `not P(x)` / r = False) -- the same tests
+                # on the same elements in the same order
+                comp = node.args[0]
+                g = comp.generators[0]
+                self.fresh_counter += 1
+                rname = "_%s_result_%d" % (f.id, self.fresh_counter)
+                want = f.id == "any"
+                test = comp.elt if want else ast.UnaryOp(op=ast.Not(),
+                                                         operand=comp.elt)
+                if g.ifs:
+                    test = ast.BoolOp(op=ast.And(),
+                                      values=list(g.ifs) + [test])
+                hit = ast.If(test=test, body=[
+                    ast.Assign(targets=[ast.Name(id=rname, ctx=ast.Store())],
+                               value=ast.Constant(value=want)),
+                    ast.Break()], orelse=[])
+                loop = ast.For(target=g.target, iter=g.iter, body=[hit],
+                               orelse=[])
+                init = ast.Assign(
+                    targets=[ast.Name(id=rname, ctx=ast.Store())],
+                    value=ast.Constant(value=not want))
+                for st in (init, loop):
+                    ast.copy_location(st, node)
+                    ast.fix_missing_locations(st)
+                    for x in ast.walk(st):
+                        for c in ast.iter_child_nodes(x):
+                            if not hasattr(c, "_parent"):
+                                c._parent = x
+                    st._parent = getattr(node, "_parent", None)
+                env2 = dict(env)
+                self._block([init, loop], env2)
+                return env2[rname]
             if isinstance(f, ast.Attribute) and f.attr == "extend":
                 # r.extend(f(x) for x in xs) is the appending loop
                 recv = self.eval(f.value, env)
@@ -1675,6 +1764,34 @@ class Interp:
     def assign(self, tgt, val, env, node):
         if isinstance(tgt, ast.Name):
             env[tgt.id] = val
+        elif isinstance(tgt, (ast.Tuple, ast.List)) and sum(
+                isinstance(t, ast.Starred) for t in tgt.elts) == 1:
+            # a, *rest, z = xs : indices from the front, a slice, indices
+            # from the back
+            n = len(tgt.elts)
+            k = [i for i, t in enumerate(tgt.elts)
+                 if isinstance(t, ast.Starred)][0]
+            after = n - 1 - k
+            if val[0] in ("tuple", "list") and len(val[1]) >= n - 1:
+                items = list(val[1])
+                for i in range(k):
+                    self.assign(tgt.elts[i], items[i], env, node)
+                self.assign(tgt.elts[k].value,
+                            ("list", tuple(items[k:len(items) - after])),
+                            env, node)
+                for j in range(after):
+                    self.assign(tgt.elts[k + 1 + j],
+                                items[len(items) - after + j], env, node)
+            else:
+                for i in range(k):
+                    self.assign(tgt.elts[i], mk_index(val, const(i)), env,
+                                node)
+                self.assign(tgt.elts[k].value,
+                            ("slice", val, const(k) if k else None,
+                             const(-after) if after else None), env, node)
+                for j in range(after):
+                    self.assign(tgt.elts[k + 1 + j],
+                                mk_index(val, const(j - after)), env, node)
         elif isinstance(tgt, (ast.Tuple, ast.List)):
             if val[0] in ("tuple", "list") and len(val[1]) == len(tgt.elts):
                 for t, v in zip(tgt.elts, val[1]):
